@@ -3,6 +3,7 @@ CONSTANTS
   Slice = 0
   NSlices = 1
   WithMarker = FALSE
+  Chains = FALSE
   FirstFromR2 = FALSE
   FoldTable <- MCFoldTable
   SingularTable <- MCSingular
